@@ -240,9 +240,24 @@ def auth_small_models(run, which):
                   exhaustive_note="all private keys a,b in 0..%d, all credentials/salts/spellings of the cfg" % (n - 1))
 
 
+def fresh_rare_classes(run):
+    """thorough: search the 2-zero-byte class of S afresh, from a seed-dependent starting key (TLC, from the spec)"""
+    os.makedirs(os.path.join(OUT, "gen"), exist_ok=True)
+    cfg = "MCRareClasses_seed%d.cfg" % run.seed
+    open(os.path.join(OUT, "gen", cfg), "w").write(
+        "SPECIFICATION Spec\nCONSTANTS\n  Hash <- SHA1\n  NShards = 16\n  PerShard = 16384\n  Want = 2\n  Offset = %d\nINVARIANT Search\nCHECK_DEADLOCK FALSE\n"
+        % (200000000 + (run.seed % 1000) * 1000000))
+    r = run.model("rareclasses", "MCRareClasses", cfg, workers=8)
+    return r.replay
+
+
 def plan_C01(run):
     auth_small_models(run, [3, 5, 7, 23, 47, 59] if not run.thorough else [3, 5, 7, 23, 47, 59, 167, 227, 257])
     scen = CORPUS if os.path.exists(CORPUS) else None
+    if run.thorough:
+        extra = fresh_rare_classes(run)
+        base = [json.loads(l) for l in open(CORPUS)] if scen else []
+        scen = run.scen_file("corpus", base + extra)
     tr = run.harness("auth", scen=scen)
     run.validate(tr, "TraceAuth")
 
